@@ -114,7 +114,7 @@ func pureOp(f []string) (out string) {
 			return "err"
 		}
 		return "ok:" + hx(d)
-	case "parse":
+	case "parse", "parse2":
 		return pureParse(mustUnhx(f[1]))
 	case "bech32":
 		a, err := sdk.AccAddressFromBech32(mustUnhx(f[1]))
